@@ -14,6 +14,7 @@ BYTE_TYPES = {"unsigned char", "char", "signed char", "void", "uint8_t", "const 
 def bounds_rule(ck, mod, label):
     n = {"proven": 0, "unknown": 0, "refuted": 0}
     unknown = []
+    covmemo = {}
     for f in sorted(mod.fns.values(), key=lambda f: f.name):
         fb = bounds.FnBounds(mod, f)
         if fb.c is None:
@@ -25,6 +26,12 @@ def bounds_rule(ck, mod, label):
                 ck.ok("R-C06-BOUNDS", f.name, cons, str(detail), where=relpath(I.where))
             elif verdict == "refuted":
                 ck.bad("R-C06-BOUNDS", f.name, cons, "%s out of bounds: %s" % (what, detail), where=relpath(I.where))
+            elif _cov_in_range(f, I, fb, covmemo):
+                # the affine analysis has no trip count for a loop that tests the cursor's alignment; D-COV's residue classes do
+                ck.ok("R-C06-BOUNDS", f.name, cons, "inside the buffer in every (alignment mod 8, length) class: all reads and writes of this buffer stay within [0, length) (D-COV, lengths 0..63 "
+                      "individually, residues mod 8 beyond)", where=relpath(I.where))
+                n["proven"] += 1
+                n["unknown"] -= 1
             else:
                 unknown.append("%s %s %s: %s" % (f.name, relpath(I.loc), what, detail))
         # inter-call invariants are re-established by every store to the field
@@ -50,6 +57,40 @@ def bounds_rule(ck, mod, label):
                 else:
                     unknown.append("%s %s: value %s stored into the buffer-position field not shown to stay within [%d,%d]" % (f.name, relpath(S.loc), fb.A.names(v), lo, hi))
     return n, unknown
+
+
+def _cov_in_range(f, I, fb, memo):
+    """fallback for an access the affine analysis leaves undecided: does D-COV show, class by class, that every read and every write of the
+    caller buffer this access goes to stays inside [0, length)?  Only for byte buffers whose contract is (buffer, length parameter)"""
+    from .. import cov
+    if I.op not in ("load", "store"):
+        return False
+    ptr = I.ops[0] if I.op == "load" else I.ops[1]
+    ai = _local_root(f, ptr)
+    if ai is None or fb.c is None:
+        return False
+    spec = fb.c.get(f.params[ai]["name"])
+    if not (isinstance(spec, tuple) and spec[0] == "len" and spec[2] == 0):
+        return False
+    li = f.param_index(spec[1])
+    if li is None:
+        return False
+    key = (f.name, ai)
+    if key not in memo:
+        memo[key] = set()
+        fixed = {i_: 8 for i_, p_ in enumerate(f.params) if f.name == "tinyjambu_aead_check_tag" and (p_["name"] or "") == "size"}
+        try:
+            ids = set()
+            okall = True
+            for mode_ in ("write", "read"):
+                _n, bad, used = cov.coverage(f, ai, li, fixed_args=fixed, mode=mode_, only_over=True)
+                okall = okall and bad is None
+                ids |= used
+            if okall:
+                memo[key] = ids
+        except Broken:
+            pass
+    return I.id in memo[key]
 
 
 def _transient_ok(mod, fb, f, S, argidx, o, size, lo, hi, v):
@@ -254,11 +295,56 @@ def _alignment_guarded(mod, f, I, ptr, argidx, w):
     return False
 
 
+def _srcline(I):
+    """file:line of the statement an access stems from (innermost inlining frame)"""
+    return (relpath(I.where) or "").split(" (inlined")[0]
+
+
+def _local_root(f, ptr):
+    """the pointer parameter of f through which ptr was derived (a buffer of some caller), or None"""
+    try:
+        v = aff.Aff(f).value(tuple(ptr))
+    except Exception:
+        return None
+    roots = [s_ for s_ in v if isinstance(s_, tuple) and s_[0] == "a" and v[s_] == 1 and (f.params[s_[1]]["ty"] or "").endswith("*")]
+    return roots[0][1] if len(roots) == 1 else None
+
+
+def _aligned_in_every_class(f, I, argidx, memo):
+    if argidx is None:
+        return False
+    return _aligned_in_every_class_(f, I, argidx, memo)
+
+
+def _aligned_in_every_class_(f, I, argidx, memo):
+    """D-COV: is the wide access I into the buffer of parameter argidx at an aligned address in every class?  The length parameter is the
+    one named after the buffer (`<buf>_len`, `<buf>len`) or the size parameter that follows it; anything D-COV cannot follow is 'no'"""
+    from .. import cov
+    key = (f.name, argidx)
+    if key not in memo:
+        memo[key] = (set(), {})
+        bn = f.params[argidx]["name"] or ""
+        li = None
+        for i_, p_ in enumerate(f.params):
+            if p_["ty"] == "i64" and (p_["name"] or "") in (bn + "_len", bn + "len", bn + "_size", bn + "size"):
+                li = i_
+        if li is None and argidx + 1 < len(f.params) and f.params[argidx + 1]["ty"] == "i64":
+            li = argidx + 1
+        if li is not None:
+            fixed = {i_: 8 for i_, p_ in enumerate(f.params) if p_["ty"] == "i64" and i_ != li and (p_["name"] or "") == "size" and f.name == "tinyjambu_aead_check_tag"}
+            try:
+                memo[key] = cov.aligned_accesses(f, argidx, li, fixed_args=fixed)
+            except Broken:
+                pass
+    return I.id in memo[key][0]
+
+
 def bytewise_const_rule(ck, mod, label, width=True):
     """R-C06-BYTEWISE / R-C06-CONST through the points-to part of D-DEP"""
     d = dep.Dep(mod, [], {}, set())
     d.run()
     nacc = 0
+    covmemo = {}
     for f in mod.fns.values():
         for I in f.insts:
             if I.op not in ("load", "store"):
@@ -282,6 +368,24 @@ def bytewise_const_rule(ck, mod, label, width=True):
                               "%d-byte access to caller byte buffer '%s' only behind a run-time alignment test of that buffer, at offsets that are multiples of %d"
                               % (I.get("size"), prm["name"], max(al, I.get("size"))), where=relpath(I.where))
                         ck.note("wide access to '%s' at %s behind an alignment test: byte-order dependence not decided here" % (prm["name"], relpath(I.where)))
+                        continue
+                    proven = getattr(ck, "aligned_where", None)
+                    if proven is None:
+                        proven = ck.aligned_where = {}
+                    if not width and al > 1 and proven.get((f.name, _srcline(I))) is not None and al <= proven[(f.name, _srcline(I))]:
+                        # optimised IR: the access stems from a source statement whose accesses were shown aligned on the source-shaped IR
+                        ck.ok("R-C06-BYTEWISE", f.name, "align#%s[%s]" % (_an(f, I), label),
+                              "access claiming %d-byte alignment stems from %s, whose accesses are at addresses that are multiples of %d in every class (shown on H/N0)"
+                              % (al, relpath(I.where), proven[(f.name, _srcline(I))]), where=relpath(I.where))
+                        continue
+                    if (al > 1 or I.get("size") > 1) and _aligned_in_every_class(f, I, obj[2] if obj[1] == f.name else _local_root(f, ptr), covmemo):
+                        proven[(f.name, _srcline(I))] = min(proven.get((f.name, _srcline(I)), 1 << 30), max(al, I.get("size")))
+                        # the address is computed to be a multiple of the access width in every (alignment, length) class of the buffer
+                        # (a byte loop up to the next boundary, then words): D-COV's residue analysis, the same one that proves the coverage
+                        ck.ok("R-C06-BYTEWISE", f.name, "align#%s[%s]" % (_an(f, I), label),
+                              "%d-byte access to caller byte buffer '%s' at an address that is a multiple of %d in every (alignment mod 8, length) class in which it executes"
+                              % (I.get("size"), prm["name"], max(al, I.get("size"))), where=relpath(I.where))
+                        ck.note("wide access to '%s' at %s at a computed aligned address: byte-order dependence not decided here" % (prm["name"], relpath(I.where)))
                         continue
                     ck.ob(al <= 1, "R-C06-BYTEWISE", f.name, "align#%s[%s]" % (_an(f, I), label),
                           "access to caller byte buffer '%s' of %s claims alignment 1" % (prm["name"], g.name),
